@@ -24,21 +24,24 @@ NL == 10
 \* ---------------------------------------------------------------- character classes
 InRanges(c, rs) == \E k \in 1..Len(rs) : rs[k][1] <= c /\ c <= rs[k][2]
 
-IsWordCh(c)     == IsWordU(c) \/ c = 8204 \/ c = 8205          \* L, Mn, Nd, Pc, ZWNJ, ZWJ
-IsECMAWordCh(c) == IsWordU(c)                                  \* what \b uses under ECMAScript
 AsciiWord(c)    == (48 <= c /\ c <= 57) \/ (65 <= c /\ c <= 90) \/ c = 95 \/ (97 <= c /\ c <= 122)
+\* (below 128 the Unicode tables reduce to the ASCII sets; the shortcut only saves table searches)
+IsECMAWordCh(c) == IF c < 128 THEN AsciiWord(c) ELSE IsWordU(c)     \* L, Mn, Nd, Pc: what \b uses under ECMAScript
+IsWordCh(c)     == IsECMAWordCh(c) \/ c = 8204 \/ c = 8205          \* ... plus ZWNJ, ZWJ
+IsDigitCh(c)    == IF c < 128 THEN (48 <= c /\ c <= 57) ELSE InU("Nd", c)
+IsSpaceCh(c)    == IF c < 128 THEN ((9 <= c /\ c <= 13) \/ c = 32) ELSE IsSpaceU(c)
 ECMASpace(c)    == InRanges(c, << <<9,13>>, <<32,32>>, <<160,160>>, <<5760,5760>>, <<8192,8202>>,
                                   <<8232,8233>>, <<8239,8239>>, <<8287,8287>>, <<12288,12288>>, <<65279,65279>> >>)
 RE2Space(c)     == c \in {9, 10, 12, 13, 32}
 
 ClsIn(cls, c) ==
   CASE cls = ""   -> FALSE
-    [] cls = "d"  -> InU("Nd", c)
-    [] cls = "D"  -> ~InU("Nd", c)
+    [] cls = "d"  -> IsDigitCh(c)
+    [] cls = "D"  -> ~IsDigitCh(c)
     [] cls = "w"  -> IsWordCh(c)
     [] cls = "W"  -> ~IsWordCh(c)
-    [] cls = "s"  -> IsSpaceU(c)
-    [] cls = "S"  -> ~IsSpaceU(c)
+    [] cls = "s"  -> IsSpaceCh(c)
+    [] cls = "S"  -> ~IsSpaceCh(c)
     [] cls = "ed" -> 48 <= c /\ c <= 57
     [] cls = "eD" -> ~(48 <= c /\ c <= 57)
     [] cls = "ew" -> AsciiWord(c)
